@@ -87,6 +87,23 @@ CHECKS['C20'] = {
     ],
 }
 
+CHECKS['C01'] = {
+    'level': 'exploration',
+    'technique': 'round-trip + differential property testing: generated public-API operation sequences tracked by a model; flattened bytes compared with an independent reference encoder of the documented layout; parsed result walked through the public getters against the model; ByteBuffer / DataIO / templated-codec routes',
+    'level_text': ('Generated-input search with three independent oracles per case (reference encoder written from the documented layout, getter walk against the operation model, '
+                   're-flatten / checksum / equality invariants) under ASan/UBSan with canaried output buffers. Held = all oracles agreed on every generated Message.'),
+    'level_note': ('Trusted: the 25-line reference encoder (models/refmsg.h) as the documented layout; little-endian host. Message equality is asserted only when the model holds no NaN '
+                   '(IEEE comparison makes == false for bit-identical NaN payloads); the bit-level getter walk carries those cases.'),
+    'rule': ('Byte-decoded sequences of up to 28 top-level operations (add/prepend/replace/remove-item/remove-name/rename/move/copy-move/clear/bursts of 3,17,300 items, pointer and tag fields, nested Messages to depth 4, '
+             'shared sub-Message refs) over 13 type codes incl. an unknown one, 9 field names incl. empty and non-ASCII. Non-trivial: some field\'s item count crossed the inline(1)/array(2+) representation boundary in either direction, '
+             'or nesting depth >= 2, or a non-flattenable field is present. Distinct: hash of the flattened bytes.'),
+    'assumptions': ['zero-length raw items are built only through AddFlat(ByteBuffer) (AddData documents that 0 bytes are rejected)'],
+    'targets': [
+        {'name': 'c01_roundtrip', 'src': ['harness/C01_roundtrip.cpp'], 'quick_n': 1000000, 'thorough_n': 12000000, 'maxlen': 600, 'min_nontrivial': 100000,
+         'class_floors': {'case_field_crossed_inline_array_boundary': 50000, 'case_nesting_ge_2': 5000, 'case_with_pointer_or_tag_field': 3000, 'case_equality_asserted': 50000, 'case_with_nan': 20000}},
+    ],
+}
+
 
 def setup():
     t0 = time.time()
